@@ -6,21 +6,26 @@ import (
 	"encoding/base64"
 	"fmt"
 
-	"google.golang.org/protobuf/proto"
+	"google.golang.org/protobuf/encoding/protowire"
 )
 
 // EncodePageToken returns a synthetic page token to find files greater than the given string.
 // If this is part of a prefix query, the token should fall within the prefixed range.
 // BRITTLE: relies on a reverse-engineered internal GCS token format, which may be subject to change.
 func EncodePageToken(greaterThan string) string {
-	bytes, err := proto.Marshal(&GcsPageToken{
-		LastFile: greaterThan,
-	})
-	if err != nil {
-		panic("could not encode gcsPageToken:" + err.Error())
+	// The wire form of GcsPageToken{LastFile: greaterThan}, written out by hand: object names are
+	// byte strings, and the protobuf library refuses to marshal (or unmarshal) a string field
+	// that is not valid UTF-8.
+	var bytes []byte
+	if greaterThan != "" {
+		bytes = protowire.AppendTag(bytes, lastFileField, protowire.BytesType)
+		bytes = protowire.AppendString(bytes, greaterThan)
 	}
 	return base64.StdEncoding.EncodeToString(bytes)
 }
+
+// lastFileField is the field number of GcsPageToken.LastFile.
+const lastFileField = 1
 
 // DecodePageToken decodes a GCS pageToken to the name of the last file returned.
 func DecodePageToken(pageToken string) (string, error) {
@@ -28,10 +33,27 @@ func DecodePageToken(pageToken string) (string, error) {
 	if err != nil {
 		return "", fmt.Errorf("could not base64 decode pageToken %s: %w", pageToken, err)
 	}
-	var message GcsPageToken
-	if err := proto.Unmarshal(bytes, &message); err != nil {
-		return "", fmt.Errorf("could not unmarshal proto: %w", err)
+	lastFile := ""
+	for len(bytes) > 0 {
+		num, typ, n := protowire.ConsumeTag(bytes)
+		if n < 0 {
+			return "", fmt.Errorf("could not unmarshal proto: %w", protowire.ParseError(n))
+		}
+		bytes = bytes[n:]
+		if num == lastFileField && typ == protowire.BytesType {
+			v, n := protowire.ConsumeBytes(bytes)
+			if n < 0 {
+				return "", fmt.Errorf("could not unmarshal proto: %w", protowire.ParseError(n))
+			}
+			lastFile = string(v)
+			bytes = bytes[n:]
+			continue
+		}
+		n = protowire.ConsumeFieldValue(num, typ, bytes)
+		if n < 0 {
+			return "", fmt.Errorf("could not unmarshal proto: %w", protowire.ParseError(n))
+		}
+		bytes = bytes[n:]
 	}
-
-	return message.LastFile, nil
+	return lastFile, nil
 }
